@@ -88,11 +88,17 @@ impl<'a, K, V> BValues<'a, K, V> {
         ensures r.src() == self.rem(), r.f() == f,
     { unimplemented!() }
 }
-// r is a minimum of the values f maps the entries of src to (None iff there is none)
-pub open spec fn is_min_of<'a, K, V: 'a, T: Ord, F: Fn(&'a V) -> T>(src: Seq<(K, V)>, f: F, r: Option<T>) -> bool {
+// ys are the values f returned for the entries of src (f.ensures is the relation between an argument
+// and the value actually returned), and r is their minimum (None iff there is none)
+pub open spec fn is_min_of_vals<'a, K, V: 'a, T: Ord, F: Fn(&'a V) -> T>(src: Seq<(K, V)>, f: F, ys: Seq<T>, r: Option<T>) -> bool {
+    &&& ys.len() == src.len()
+    &&& forall|i: int| 0 <= i < src.len() ==> f.ensures((&src[i].1,), #[trigger] ys[i])
     &&& r.is_none() <==> src.len() == 0
-    &&& r.is_some() ==> exists|i: int| 0 <= i < src.len() && f.ensures((&(#[trigger] src[i]).1,), r.unwrap())
-    &&& r.is_some() ==> forall|i: int, y: T| 0 <= i < src.len() && #[trigger] f.ensures((&src[i].1,), y) ==> kle(r.unwrap(), y)
+    &&& r.is_some() ==> exists|i: int| 0 <= i < ys.len() && #[trigger] ys[i] == r.unwrap()
+    &&& r.is_some() ==> forall|i: int| 0 <= i < ys.len() ==> kle(r.unwrap(), #[trigger] ys[i])
+}
+pub open spec fn is_min_of<'a, K, V: 'a, T: Ord, F: Fn(&'a V) -> T>(src: Seq<(K, V)>, f: F, r: Option<T>) -> bool {
+    exists|ys: Seq<T>| is_min_of_vals(src, f, ys, r)
 }
 impl<'a, K, V, F> BValuesMap<'a, K, V, F> {
     // Iterator::min: None iff there is no element; otherwise a mapped value that is <= every mapped value
